@@ -322,9 +322,22 @@ def cleanL : List Stmt → Bool
   | s :: ss => cleanS s && cleanL ss
 end
 
+/-- The names a function body declares `global` / `nonlocal` at its top. -/
+def declaredNames (body : List Stmt) : List String :=
+  (body.takeWhile isDecl).flatMap fun s => match s with
+    | .global _ ns => ns
+    | .nonlocal _ ns => ns
+    | _ => []
+
+/-- The setter really assigns the variables of the ENCLOSING function: every simple variable it assigns is declared
+`global` / `nonlocal` in it (an undeclared target would be a local of the setter). -/
+def SetterDeclares (c : OpCall) : Prop :=
+  ∃ ts, setterTargets c = some ts ∧
+    ∀ t ∈ ts, ∀ i s ctx, t = Expr.name i s ctx → BlockVars.isComposite s = false → s ∈ declaredNames c.setter.body
+
 /-- Everything the contract says of one call, as far as its own syntax goes. -/
 def Good (c : OpCall) : Prop :=
-  Lengths c ∧ Positions c ∧ Arity c ∧ Nouts c ∧ Distinct c ∧ GetterPure c
+  Lengths c ∧ Positions c ∧ Arity c ∧ Nouts c ∧ Distinct c ∧ GetterPure c ∧ SetterDeclares c
 
 /-- The output of the model of `ControlFlowTransformer` on `root`. -/
 def cfOutput (env : Env) (nm : Naming.Namer) (root : Stmt) : ParsedOutput := (transform env nm root).1
@@ -387,8 +400,15 @@ def getterPureB (c : OpCall) : Bool :=
   | some gs => gs.all fun g => (getterDen g).isSome
   | none => false
 
+def setterDeclaresB (c : OpCall) : Bool :=
+  match setterTargets c with
+  | some ts => ts.all fun t => match t with
+    | .name _ s _ => BlockVars.isComposite s || (declaredNames c.setter.body).contains s
+    | _ => true
+  | none => false
+
 def callOkB (c : OpCall) : Bool :=
-  lengthsB c && positionsB c && arityB c && noutsB c && distinctB c && getterPureB c
+  lengthsB c && positionsB c && arityB c && noutsB c && distinctB c && getterPureB c && setterDeclaresB c
 
 /-- The verified checker: every control-flow operator call of the tree is well formed and obeys the contract. -/
 def contractOk (g : ParsedOutput) : Bool :=
